@@ -178,7 +178,7 @@ def scanAr (msg : Bytes) (serverSize : Nat) : Nat → Nat → Nat → Bool → N
           | none => (.formErr, edns, lim)
           | some _ =>
             if !tsigRdataOk msg (d.ownerEnd + 10) d.next then (.formErr, edns, lim)
-            else if d.cls ≠ 255 ∨ specTtl d.rawTtl ≠ 0 then (.formErr, edns, lim)
+            else if d.cls ≠ 255 ∨ d.rawTtl ≠ 0 then (.formErr, edns, lim)   -- RFC 8945 §4.2: class ANY, TTL 0
             else (.tsig, edns, lim)
       else scanAr msg serverSize n total d.next edns lim
 
